@@ -1,12 +1,14 @@
 import PyImpSpec.Cdc.RT
+import PyImpSpec.Cdc.TextRT
 import PyImpSpec.Gen.Elements
 
 /-! # C03 — circuit description codes mean one circuit, however they are spelled
 
-Model: `Cdc.*` (tokenizer + parser, shared with C04; correspondence stream `cdc`).  Proved so far: the
-structural heart of the round trip, at token level, for every tree of plain elements.  The remaining
-clauses (parameter lists, labels, sub-circuits, numbers) are decided by the generator-as-oracle stream
-of the check (PARTIAL). -/
+Model: `Cdc.*` (tokenizer + parser, shared with C04; correspondence streams `cdc` and `tok`).  Proved: the
+structural heart of the round trip for every tree of plain elements - at token level (`roundtrip_structure`) and on
+TEXT (`roundtrip_text`: `parse_cdc` of the characters of the basic-syntax code, with strip, empty-form shortcut,
+tokenizer, header migration, main loops and the final fold).  The remaining clauses (parameter lists, labels,
+sub-circuits, numbers) are decided by the generator-as-oracle stream of the check (PARTIAL). -/
 
 namespace C03
 open Cdc
@@ -28,6 +30,26 @@ theorem roundtrip_structure_registry (t : T) (hp : Printable Gen.elemTable t) (r
     mainLoop Gen.elemTable true (2 + 8 * (printT t ++ rest).length) ⟨printT t ++ rest, st⟩
       = .ok ⟨rest, .ckt (norm Gen.elemTable t) :: st⟩ :=
   Cdc.roundtrip_structure Gen.elemTable t hp rest st hr
+
+/-- **Text round trip.** For every printable tree whose leaf symbols have the registered shape (upper-case letter followed
+by lower-case letters, digits, underscores), the whole of `parse_cdc` - `strip`, the empty-form shortcut, the tokenizer, the
+version-header migration, the main loops and the final fold of the stack - applied to the CHARACTERS of the tree's
+basic-syntax code returns exactly the tree's normal form as the top-level series: no element is lost, duplicated or
+reordered between the text and the circuit, at any nesting depth and branching. -/
+theorem roundtrip_text (tbl : List ElemDef) (t : T) (hp : Printable tbl t) (hv : LeavesValid t) :
+    parseCdc tbl fixedFlags (String.ofList (renderT t)) = .ok (top (norm tbl t)) :=
+  Cdc.parseCdc_renderT tbl t hp hv
+
+/-- the tokenizer inverts rendering on the basic syntax (symbols and the four brackets) -/
+theorem tokenize_inverts_render (t : T) (hv : LeavesValid t) : tokenize true (renderT t) = .ok (printT t) :=
+  Cdc.tokenize_renderT t hv
+
+/-- non-vacuity: `[R(C[RC])]` meets the hypotheses -/
+example : Printable demoTblRT (.series [.leaf "R", .parallel [.leaf "C", .series [.leaf "R", .leaf "C"]]]) ∧
+    LeavesValid (.series [.leaf "R", .parallel [.leaf "C", .series [.leaf "R", .leaf "C"]]]) := by
+  refine ⟨by simp [Printable, Printables, demoTblRT], ?_⟩
+  simp only [LeavesValid, LeavesValids, and_true]
+  refine ⟨⟨'R', [], rfl, by decide, by simp⟩, ⟨'C', [], rfl, by decide, by simp⟩, ⟨'R', [], rfl, by decide, by simp⟩, ⟨'C', [], rfl, by decide, by simp⟩⟩
 
 /-- normal forms contain no empty connection -/
 theorem norm_nonempty (tbl : List ElemDef) (t : T) (hp : Printable tbl t) : ne (norm tbl t) = true :=
